@@ -667,6 +667,8 @@ func (x *fnExec) chanRecv(st *State, ch Term, cht types.Type) (Term, Term) {
 	recvn := st.heapGet(v, "CH_recvn", arrSort(sInt, sInt))
 	rc := sel(recvn, ch.S)
 	okS := st.fresh(v, "rok", sBool)
+	// by definition of the prophecy sequence: 0 <= received so far <= total ever received
+	st.assume("(and (<= 0 " + rc + ") (<= " + rc + " (CH_total " + ch.S + ")))")
 	st.assume(eq(okS, "(< "+rc+" (CH_total "+ch.S+"))"))
 	val := mkTerm(st.fresh(v, "rv", es), es, ct.Elem())
 	st.assume(eq(val.S, "(ite "+okS+" ("+fn+" "+ch.S+" "+rc+") "+zeroOf(es)+")"))
